@@ -272,6 +272,15 @@ def run(pid, spec, prop_index, pkg, pkgdir, tier, replay, verif_seed, scratch, t
             seed_override = (rf.get("case") or {}).get("seed")
     else:
         jobs = [dict(j) for j in spec[tier]]
+        if tier == "quick":
+            # the job table holds base counts; the quick tier runs them scaled (about 15-25 s per property on 16 cores)
+            try:
+                scale = float(os.environ.get("VERIF_QUICK_SCALE", "4"))
+            except ValueError:
+                scale = 4.0
+            for j in jobs:
+                if j.get("kind", "rapid") == "rapid" and not j.get("noscale"):
+                    j["checks"] = max(1, int(j["checks"] * scale))
         jobs.append({"name": "known", "run": "^TestKnown$", "kind": "plain", "shards": 1})
     need_plain = any(not j.get("race") for j in jobs if j.get("kind") != "fuzz")
     need_race = any(j.get("race") for j in jobs if j.get("kind") != "fuzz")
